@@ -173,6 +173,36 @@ class Evaluator:
             self._ops[name] = (flatten_adaptive(o, 0.01), sum(1 for op, _ in o if op != "endPath"))
         return self._ops[name]
 
+    def component_sigma(self, name):
+        """Largest singular value among the component transforms of a TrueType composite (1.0 for simple glyphs and
+        CFF): a stored donor outline placed through it carries its own integer rounding scaled by that much."""
+        glyf = self.font.get("glyf") if "glyf" in self.font else None
+        if glyf is None or name not in glyf.glyphs:
+            return 1.0
+        g = glyf[name]
+        if not g.isComposite():
+            return 1.0
+        s = 1.0
+        for comp in g.components:
+            t = getattr(comp, "transform", None)
+            if t is not None:
+                m = np.array([[t[0][0], t[1][0]], [t[0][1], t[1][1]]], float)
+                s = max(s, float(np.linalg.svd(m, compute_uv=False)[0]) * self.component_sigma(comp.glyphName))
+            else:
+                s = max(s, self.component_sigma(comp.glyphName))
+        return s
+
+    def component_err(self, name):
+        """Displacement a composite adds on top of its donor's own rounding: integer component offsets (half a unit per
+        axis) and F2Dot14 matrix entries acting on coordinates up to 4 em."""
+        if not self._is_composite(name):
+            return 0.0
+        R = 4.0 * self.font["head"].unitsPerEm
+        return 0.7072 + 0.5 * Q_F2DOT14 * 2 * R
+
+    def _is_composite(self, name):
+        return "glyf" in self.font and name in self.font["glyf"].glyphs and self.font["glyf"][name].isComposite()
+
     def has_glyph(self, name):
         if self.colr.version == 0:
             return name in self.colr.ColorLayers
@@ -249,7 +279,8 @@ class Evaluator:
             for rec in colr.ColorLayers[glyph_name]:
                 col, a = _col(self.font, rec.colorID, 1.0, self.palette)
                 cs, n = self.ops(rec.name)
-                layers.append(Layer(cs, Paint("solid", color=col, alpha=a), (), nseg=n, ref=rec.name))
+                csig = self.component_sigma(rec.name)
+                layers.append(Layer(cs, Paint("solid", color=col, alpha=a), (), sigma=max(1.0, csig), err=self.component_err(rec.name), nseg=n, ref=rec.name, transformed=csig != 1.0 or self._is_composite(rec.name)))
             return layers
 
         import itertools
@@ -267,7 +298,7 @@ class Evaluator:
                 cs, n = self.ops(p.Glyph)
                 out = [apply(T, c) for c in cs]
                 layers.append(
-                    Layer(out, self.leafpaint(p.Paint, T), groups, sigma=max(1.0, sigma_max(T)), err=err, nseg=n, ref=p.Glyph, transformed=not np.allclose(T, I))
+                    Layer(out, self.leafpaint(p.Paint, T), groups, sigma=max(1.0, sigma_max(T)) * self.component_sigma(p.Glyph), err=err + sigma_max(T) * self.component_err(p.Glyph), nseg=n, ref=p.Glyph, transformed=not np.allclose(T, I))
                 )
             elif is_xf(p):
                 M, ql, qt = _xf(p, self.vc)
